@@ -410,7 +410,14 @@ def binop(ev, op, a, b, node, fr):
         if a.unit is not None and y.is_number:
             unit = a.unit ** y
     elif isinstance(op, ast.LShift):
-        # Quantity creation  value << unit
+        # Quantity creation / conversion  value << unit
+        if a.kind == "quantity" and a.tag != "unit" and b.tag == "unit":
+            dimension_check(ev, a.expr, b.expr, f"<< {b.expr}", node)
+            if a.unit is None or a.unit == b.expr:
+                # astropy returns the very same Quantity when it is already in that unit (which, for a caller-supplied
+                # value of unknown representation, is one of the legitimate inputs): later in-place operators reach it
+                return a
+            return a.like(a.expr, unit=b.expr, kind="quantity", cls=a.cls)
         r = x * y
         unit = b.expr
         kind = "quantity"
@@ -778,7 +785,13 @@ def index_term(ev, idx):
     if isinstance(idx, BoolV):
         return sp.Integer(int(idx.b))
     if isinstance(idx, NdArr):
-        return sp.Symbol("mask_" + "".join("1" if ev.truth(x) is True else "0" for x in idx.items))
+        if idx.items and all(isinstance(x, Num) and x.expr.is_Integer for x in idx.items) and idx.ndim == 1:
+            return sp.Function("IdxArr")(*[x.expr for x in idx.items])        # explicit integer index array
+        if all(isinstance(x, BoolV) for x in idx.items):
+            return sp.Symbol("mask_" + "".join("1" if x.b else "0" for x in idx.items))
+        if not idx.items:
+            return sp.Function("IdxArr")()
+        raise Unsupported("explicit index array that is neither integers nor booleans")
     raise Unsupported(f"index {idx!r}")
 
 
@@ -900,6 +913,10 @@ def index_shape(ev, shape, items):
         elif isinstance(it, Num):
             if it.shape:     # advanced / mask index
                 return None
+        elif isinstance(it, NdArr) and it.ndim == 1 and all(isinstance(x, Num) for x in it.items):
+            out.append(sp.Integer(len(it.items)))          # integer index array: that many selected along this axis
+        elif isinstance(it, NdArr) and it.ndim == 1 and all(isinstance(x, BoolV) for x in it.items):
+            out.append(sp.Integer(sum(1 for x in it.items if x.b)))
         else:
             return None
         pos += 1
